@@ -201,47 +201,64 @@ package main
 //@     invariant seen_clean: forall s *Session :: #seen[s] && (s in t.sessions) && s != nil && s.multi == nil ==> t.sessions[s].uid != uid
 
 // ---------------------------------------------------------------------------------------------
+// Set once by main() / package initialisation and never reassigned while serving (checked: no other writer).
+//@ stable glob:main.globals.hub glob:store.Store glob:store.Topics glob:store.Subs glob:store.Users glob:store.Messages
+
 // C11: sessions act only within their handshake / authentication state.
 // The request handlers state what dispatch must have established before it may call them.
 // ---------------------------------------------------------------------------------------------
 //@ spec func actsAsSelfOrRoot(s *Session, msg *ClientComMessage) bool { return s.authLvl == auth.LevelRoot || (msg.AsUser == userIdText(s.uid) && msg.AuthLvl == int(s.authLvl)) }
 
 //@ func (s *Session) publish(msg *ClientComMessage)
-//@   trusted
 //@   requires [C11] handshake: s.ver != 0
 //@   requires [C11] logged_in: msg.AsUser != ""
 //@   requires [C11] identity:  actsAsSelfOrRoot(s, msg)
+//@   requires [C13] s != nil && msg != nil && msg.Pub != nil && globals.hub != nil
 //@   modifies *
+//@   nopanic
+//@   safe
 //@ func (s *Session) subscribe(msg *ClientComMessage)
-//@   trusted
 //@   requires [C11] handshake: s.ver != 0
 //@   requires [C11] logged_in: msg.AsUser != ""
 //@   requires [C11] identity:  actsAsSelfOrRoot(s, msg)
+//@   requires [C13] s != nil && msg != nil && msg.Sub != nil && globals.hub != nil && store.Store != nil
+//@   requires [C13,assumed] live: s.inflightReqs != nil
 //@   modifies *
+//@   nopanic
+//@   safe
 //@ func (s *Session) leave(msg *ClientComMessage)
-//@   trusted
 //@   requires [C11] handshake: s.ver != 0
 //@   requires [C11] logged_in: msg.AsUser != ""
 //@   requires [C11] identity:  actsAsSelfOrRoot(s, msg)
+//@   requires [C13] s != nil && msg != nil && msg.Leave != nil && globals.hub != nil && store.Store != nil
+//@   requires [C13,assumed] live: s.inflightReqs != nil
 //@   modifies *
+//@   nopanic
+//@   safe
 //@ func (s *Session) get(msg *ClientComMessage)
-//@   trusted
 //@   requires [C11] handshake: s.ver != 0
 //@   requires [C11] logged_in: msg.AsUser != ""
 //@   requires [C11] identity:  actsAsSelfOrRoot(s, msg)
+//@   requires [C13] s != nil && msg != nil && msg.Get != nil && globals.hub != nil
 //@   modifies *
+//@   nopanic
+//@   safe
 //@ func (s *Session) set(msg *ClientComMessage)
-//@   trusted
 //@   requires [C11] handshake: s.ver != 0
 //@   requires [C11] logged_in: msg.AsUser != ""
 //@   requires [C11] identity:  actsAsSelfOrRoot(s, msg)
+//@   requires [C13] s != nil && msg != nil && msg.Set != nil && globals.hub != nil
 //@   modifies *
+//@   nopanic
+//@   safe
 //@ func (s *Session) del(msg *ClientComMessage)
-//@   trusted
 //@   requires [C11] handshake: s.ver != 0
 //@   requires [C11] logged_in: msg.AsUser != ""
 //@   requires [C11] identity:  actsAsSelfOrRoot(s, msg)
+//@   requires [C13] s != nil && msg != nil && msg.Del != nil && globals.hub != nil
 //@   modifies *
+//@   nopanic
+//@   safe
 //@ func (s *Session) acc(msg *ClientComMessage)
 //@   requires [C11] handshake: s.ver != 0
 //@   requires [C11] identity:  actsAsSelfOrRoot(s, msg)
@@ -258,7 +275,10 @@ package main
 
 //@ func (s *Session) dispatch(msg *ClientComMessage)
 //@   requires [C11] s != nil && msg != nil
+//@   requires [C13] env: globals.hub != nil && store.Store != nil && s.inflightReqs != nil
 //@   modifies *
+//@   nopanic
+//@   safe
 
 // {hi}: the version is set once and only to a supported one.
 //@ func (s *Session) hello(msg *ClientComMessage)
